@@ -33,6 +33,9 @@ type c10Scenario struct {
 	// array has been large once); Trace: every log level is switched on and a live logger installed
 	Burst int  `json:"burst_before,omitempty"`
 	Trace bool `json:"trace_logging,omitempty"`
+	// NoNest: the no-nesting option is on, and "PushShared" pushes one batch slice that all threads share
+	// (a value, a Stack, another value): the Stack is turned away, the caller's slice is left alone
+	NoNest bool `json:"no_nesting,omitempty"`
 }
 
 func (sc c10Scenario) String() string {
@@ -55,6 +58,9 @@ func (sc c10Scenario) String() string {
 	}
 	if sc.Trace {
 		pol += " trace-logging"
+	}
+	if sc.NoNest {
+		pol += " no-nesting"
 	}
 	return fmt.Sprintf("%s len=%d fifo=%v cap=%d%s {%s}", sc.Kind, sc.InitLen, sc.FIFO, sc.Cap, pol, strings.Join(p, " || "))
 }
@@ -102,6 +108,15 @@ func c10Op(name, tok string) (run func(s stackage.Stack) string, model func(m *l
 		return func(s stackage.Stack) string { s.Reverse(); return "" }, func(m *listModel) string { m.reverse(); return "" }
 	case "Reset":
 		return func(s stackage.Stack) string { s.Reset(); return "" }, func(m *listModel) string { m.reset(); return "" }
+	case "PushShared": // one batch slice shared by every thread: s.Push(batch...)
+		return func(s stackage.Stack) string {
+				batch, _ := s.Auxiliary()["batch"].([]any)
+				s.Push(batch...)
+				return ""
+			}, func(m *listModel) string {
+				m.push("shared-a", "shared-b") // the Stack in between is turned away (no-nesting)
+				return ""
+			}
 	case "TransferIn": // a private one-element stack transferred into the shared one: one push, under its lock
 		// (Transfer's own verdict compares lengths it reads outside the lock and is not among the calls the
 		// statement lists: only what happens to the shared content is judged)
@@ -173,6 +188,10 @@ func (sc c10Scenario) mk() stackage.Stack {
 	}
 	if sc.Trace {
 		s.SetLogger(c11EnvLogger).SetLogLevel("all")
+	}
+	if sc.NoNest {
+		s.SetNoNesting(true)
+		s.SetAuxiliary(stackage.Auxiliary{"batch": []any{"shared-a", stackage.Or().Push("refused"), "shared-b"}})
 	}
 	if sc.Peer {
 		s.SetAuxiliary(stackage.Auxiliary{"peer": stackage.List().Push("p0", "p1").SetMutex()})
@@ -450,6 +469,14 @@ func c10Scenarios(c *Ctx) (out []c10Scenario, bounds []int) {
 				bounds = append(bounds, 2)
 			}
 		}
+	}
+	for _, cf := range cfgs(2) {
+		for _, b := range append([]string{"PushShared"}, ops[:8]...) {
+			out = append(out, c10Scenario{InitLen: cf[0], FIFO: cf[1] == 1, Cap: cf[2], Progs: [][]string{{"PushShared"}, {b}}, NoNest: true})
+			bounds = append(bounds, -1)
+		}
+		out = append(out, c10Scenario{InitLen: cf[0], FIFO: cf[1] == 1, Cap: cf[2], Progs: [][]string{{"PushShared"}, {"PushShared"}, {"Pop"}}, NoNest: true})
+		bounds = append(bounds, 2)
 	}
 	for _, cf := range cfgs(1) {
 		for i, a := range ops[:8] {
